@@ -66,10 +66,21 @@ func buildTree(kids []*wnode, mode string) (uint32, error) {
 	if len(kids) == 0 {
 		return NoStream, nil
 	}
-	for i := range kids {
-		for j := i + 1; j < len(kids); j++ {
-			if !lessW(kids[i].name, kids[j].name) && !lessW(kids[j].name, kids[i].name) {
-				return 0, fmt.Errorf("duplicate name in one storage: %q", string(utf16.Decode(kids[i].name)))
+	if len(kids) <= 64 {
+		for i := range kids {
+			for j := i + 1; j < len(kids); j++ {
+				if !lessW(kids[i].name, kids[j].name) && !lessW(kids[j].name, kids[i].name) {
+					return 0, fmt.Errorf("duplicate name in one storage: %q", string(utf16.Decode(kids[i].name)))
+				}
+			}
+		}
+	} else {
+		// the same check for a large storage: equal names are neighbours once sorted
+		chk := append([]*wnode(nil), kids...)
+		sort.SliceStable(chk, func(i, j int) bool { return lessW(chk[i].name, chk[j].name) })
+		for i := 1; i < len(chk); i++ {
+			if !lessW(chk[i-1].name, chk[i].name) {
+				return 0, fmt.Errorf("duplicate name in one storage: %q", string(utf16.Decode(chk[i].name)))
 			}
 		}
 	}
@@ -337,6 +348,32 @@ func buildOnce(spec Spec, fillerSectors int) ([]byte, Info, int, error) {
 				return nil, info, 0, err
 			}
 			sn.kids = append(sn.kids, n)
+			entries = append(entries, n)
+			streams = append(streams, n)
+		}
+	}
+	if m := spec.Many; m != nil {
+		if m.NameLen < 4 || m.NameLen > 31 || (m.LongNames > 0 && m.NameLen > 30) || m.LongNames > m.Count || m.Count >= 36*36*36*36 {
+			return nil, info, 0, errors.New("generated run of streams: name length or count out of range")
+		}
+		parent := root
+		if m.InStorage {
+			parent = nil
+			for _, k := range root.kids {
+				if k.typ == TypeStorage {
+					parent = k
+				}
+			}
+			if parent == nil {
+				return nil, info, 0, errors.New("generated run of streams: no storage to put it in")
+			}
+		}
+		for _, s := range m.Streams() {
+			n, err := mkStream(s)
+			if err != nil {
+				return nil, info, 0, err
+			}
+			parent.kids = append(parent.kids, n)
 			entries = append(entries, n)
 			streams = append(streams, n)
 		}
